@@ -1,6 +1,7 @@
 package c05
 
 import (
+	"encoding/json"
 	"fmt"
 	"os"
 	"sort"
@@ -8,12 +9,30 @@ import (
 	"strings"
 	"testing"
 
+	"github.com/evanw/esbuild/verif/vdrv"
 	"pgregory.net/rapid"
 )
 
 // TestExplore (development aid, only with VERIF_C05_EXPLORE=<sub>:<n>): judges n examples of one generator
 // without stopping at failures and prints a summary of the failing ones.
 func TestExplore(t *testing.T) {
+	if files := os.Getenv("VERIF_C05_EXPLORE_FILES"); files != "" {
+		// judge stored replay files and print how each is classified
+		setup(t)
+		defer W.Close()
+		for _, f := range strings.Fields(files) {
+			r, err := vdrv.LoadReplay(f)
+			if err != nil {
+				fmt.Printf("%s: %v\n", f, err)
+				continue
+			}
+			var c Case
+			json.Unmarshal(r.Case, &c)
+			v := judge(c)
+			fmt.Printf("%s: ok=%v known=%q discard=%q\n", f, v.OK, v.Known, v.Discard)
+		}
+		return
+	}
 	spec := os.Getenv("VERIF_C05_EXPLORE")
 	if spec == "" {
 		t.Skip("VERIF_C05_EXPLORE not set")
